@@ -90,7 +90,7 @@ func wireParts(tier string) []wirePart {
 	rule := "AppendEntriesRequest: FULL product of the header (768) x every entry list of length 0..1 (194)"
 	if tier == "thorough" {
 		lists += nList2
-		rule = "AppendEntriesRequest: FULL product of the header (768) x every entry list of length 0..2 (nil, empty, 192 single entries, 36864 ordered pairs): 28459008 messages"
+		rule = "AppendEntriesRequest: FULL product of the header (768) x every entry list of length 0..2 (nil, empty, 192 single entries, 36864 ordered pairs): 768 x 37058 = 28460544 messages"
 	}
 	return []wirePart{
 		{"append-entries-request", nAEHead * lists, func(i uint64) *WireCase {
